@@ -29,7 +29,10 @@ SetSet(q) == {{q[k][1], q[k][2]} : k \in 1..Len(q)}
 
 (* projection record (JSON) -> node record of Core: exactly Core's fields *)
 NormNode(p) ==
-  IF ~p.alive THEN [alive |-> FALSE]
+  IF ~p.alive THEN (IF "disk" \in DOMAIN p
+                    THEN [alive |-> FALSE, disk |-> [jlog |-> p.disk.jlog, torn |-> p.disk.torn, meta |-> p.disk.meta, dump |-> p.disk.dump,
+                                                  term |-> p.disk.term, votedFor |-> p.disk.votedFor]]
+                    ELSE [alive |-> FALSE])
   ELSE [alive |-> TRUE, role |-> p.role, term |-> p.term, votedFor |-> p.votedFor, votes |-> p.votes,
         leader |-> p.leader, log |-> p.log, commit |-> p.commit, applied |-> p.applied, lci |-> p.lci,
         nextIdx |-> p.nextIdx, matchIdx |-> p.matchIdx, fresh |-> ToSet(p.fresh),
@@ -38,7 +41,7 @@ NormNode(p) ==
         rcnt |-> p.rcnt, noopIdx |-> p.noopIdx, chgIdx |-> p.chgIdx, hist |-> p.hist, ver |-> p.ver,
         ready |-> p.ready, force |-> p.force, lse |-> p.lse, needLoad |-> p.needLoad, serPid |-> p.serPid,
         serId |-> p.serId, snap |-> p.snap, trans |-> p.trans, incoming |-> p.incoming,
-        rocnt |-> p.rocnt, roid |-> p.roid]
+        rocnt |-> p.rocnt, roid |-> p.roid, metaCommit |-> p.metaCommit]
 
 Steps(t) == Traces[t].steps
 Full(t) == Steps(t)[1].full
@@ -80,6 +83,9 @@ ActSnaps(e) == IF Has(e, "newsnaps")
 Orc(e) == IF Has(e, "orc") THEN [sid |-> e.orc.sid, size |-> e.orc.size] ELSE [sid |-> "?", size |-> 0]
 
 Ord(e) == IF Has(e, "ord") THEN e.ord ELSE <<>>
+(* did the journal's one-second timer store the commit index in this tick (visible as a changed .meta) *)
+MetaStored(e) == /\ e.a[1] = "Tick" /\ Has(e, "upd") /\ e.a[2] \in DOMAIN e.upd /\ e.upd[e.a[2]].alive
+                 /\ node[e.a[2]].alive /\ e.upd[e.a[2]].metaCommit # node[e.a[2]].metaCommit
 
 DiffFields(exp, act) ==
   {f \in DOMAIN exp \cup DOMAIN act : f \notin DOMAIN exp \/ f \notin DOMAIN act \/ exp[f] # act[f]}
@@ -106,7 +112,7 @@ StepDiff(e) ==
   LET a == e.a IN
   CASE a[1] = "Tick" ->
          IF node[a[2]].alive
-         THEN CtxDiff(a[2], TickCtx(a[2], a[3], IF Len(a) >= 4 THEN a[4] ELSE DefaultCut, Orc(e), Ord(e)), chan, e)
+         THEN CtxDiff(a[2], TickCtx(a[2], a[3], IF Len(a) >= 4 THEN a[4] ELSE DefaultCut, Orc(e), Ord(e), MetaStored(e)), chan, e)
          ELSE {"disabled"}
     [] a[1] = "Deliver" ->
          IF chan[a[2]][a[3]] = <<>> \/ ~node[a[3]].alive THEN {"disabled"}
@@ -138,6 +144,8 @@ Relational(e) ==
     [] a[1] = "Compact" -> Compact(a[2])
     [] a[1] = "Start" -> StartFresh(a[2], ToSet(a[3]))
     [] a[1] = "Stop" -> Stop(a[2])
+    [] a[1] = "Crash" -> Crash(a[2])
+    [] a[1] = "Restart" -> Restart(a[2])
     [] OTHER -> TRUE
 
 TNext ==
@@ -146,8 +154,9 @@ TNext ==
   /\ tid' = tid
   /\ LET e == Steps(tid)[l] IN
      /\ Bound(e)
-     /\ lastTick' = IF e.a[1] = "Tick" THEN e.a[2] ELSE Nil
-     /\ GNext
+     /\ lastTick' = IF e.a[1] = "Tick" THEN e.a[2]
+                    ELSE IF e.a[1] = "KillAt" /\ e.a[4][1] = "Tick" THEN e.a[2] ELSE Nil
+     /\ GNextWith(IF Has(e, "atkill") THEN {[hist |-> e.atkill.hist, log |-> e.atkill.log, commit |-> e.atkill.commit, term |-> e.atkill.term]} ELSE {})
      /\ LET d == StepDiff(e)
             rel == Relational(e)
             bad == StepViolations \cup StateViolations'
